@@ -132,6 +132,11 @@ def _is_std_array(em, e):
 
 
 def operator_call(em, n, rd, args):
+    if rd.get('name') == 'operator()' and args:
+        st = _param_stub(em, args[0])
+        if st is not None:
+            em.lowerings['M-callable(parameter %s -> contract stub)' % st] += 1
+            return '%s(%s)' % (st, ', '.join(em.E(a) for a in args[1:]))
     if rd.get('name') == 'operator[]' and len(args) == 2 and _is_std_array(em, args[0]):
         em.lowerings['M-array(std::array::operator[] -> _M_elems[i])'] += 1
         return '((%s)._M_elems[%s])' % (em.E(args[0]), em.E(args[1]))
@@ -212,7 +217,29 @@ def range_for(em, n, ind, fn):
     return s
 
 
+def _param_stub(em, e):
+    """name of the contract stub standing for a callable parameter (e.g. the verifier), or None"""
+    stubs = em.opts.get('param_fn_stubs') or {}
+    c = e
+    while c.get('kind') in ('ImplicitCastExpr', 'ParenExpr', 'UnaryOperator') and inner(c):
+        if c.get('kind') == 'UnaryOperator' and c.get('opcode') != '*':
+            break
+        c = inner(c)[0]
+    if c.get('kind') == 'DeclRefExpr' and c['referencedDecl'].get('kind') == 'ParmVarDecl':
+        return stubs.get(c['referencedDecl'].get('name'))
+    return None
+
+
+def indirect_call(em, n, callee_e, args):
+    st = _param_stub(em, callee_e)
+    if st is None:
+        return None
+    em.lowerings['M-callable(parameter %s -> contract stub)' % st] += 1
+    return '%s(%s)' % (st, ', '.join(em.E(a) for a in args))
+
+
 OPTS = {
+    'indirect_call': indirect_call,
     'local_var': local_var,
     'range_for': range_for,
     'model_type': model_type,
